@@ -225,7 +225,8 @@ CLAIMS = {
              "proof attempt exposed defect D11, fixed in /repo); float/duration for EVERY conversion function. Tied to "
              "text/terminal/*.go by a differential run over literal-shaped, boundary and malformed byte strings x offsets, with the Go "
              "conversions (strconv, time, utf8, regexp) called directly on the lexeme the model reports.",
-        note="strconv.ParseFloat, time.ParseDuration and the regexp engine for user expressions are universally quantified parameters "
+        note="TIED BY TRANSLATION (Props/C08P.lean): unquoteString (both loops; strconv.UnquoteChar a parameter with an explicit contract) is translated from /repo on every run and proved equal to the model (c08_translated_unquoteString), Readf over it agrees with the model, the consumed bytes never contain CR or LF (c08p_no_raw_linebreak). The terminal closures themselves are tied by the differential run. "
+             "strconv.ParseFloat, time.ParseDuration and the regexp engine for user expressions are universally quantified parameters "
              "(contract: match length within the rest); strconv.ParseInt / UnquoteChar / utf8 are re-implemented and compared with "
              "the real functions on every sampled input.",
         technique="Lean 4 theorems (specification equality per terminal, regex AST semantics, language characterisations, value theorems) + differential correspondence + regenerated regexps and function bodies"),
@@ -235,7 +236,8 @@ CLAIMS = {
              "outside it, for every content, base offset and position (c09_* theorems; regexp engine and custom function are "
              "universally quantified parameters); tied to text/reader.go by a differential run over all primitives x contents x "
              "offsets x positions and by regenerated guard/cursor expressions.",
-        note="The regexp engine is a parameter with the contract 'match length within the rest'; utf8.DecodeRune is re-implemented "
+        note="TIED BY TRANSLATION (Props/C09P.lean): Reader.ReadRune / MatchString / MatchWord / ReadRegexp / Readf and isWordCharacter are translated from /repo on every run (FactsProg.lean) and proved equal to the model for every position in the file (the regexp engine and the Readf callback are parameters with explicit contracts); c09p_bounds / c09p_inbounds restate the bounds about the translated code (never a panic for a position in the file, result in [pos, end], nothing that existed is written); 39 semantic edits of these functions each break a tie, 23 equivalent rewrites do not. "
+             "The regexp engine is a parameter with the contract 'match length within the rest'; utf8.DecodeRune is re-implemented "
              "and compared with the real function on every sampled input.",
         technique="Lean 4 theorems (specification equality per primitive, bounds, in-bounds) + differential correspondence + regenerated facts"),
     "C10": dict(
@@ -266,7 +268,8 @@ CLAIMS = {
              "free position are unknown (c11_unknown, an iff), the lookup never indexes out of range (c11_nopanic), CRLF normalisation "
              "characterised (c11_crlf); the binary searches are Go's sort.Search loop. Tied to parsley/file_set.go and text/file.go by a "
              "differential run over random file sets x every global position and by regenerated constants/expressions.",
-        note="sort.Search and bytes.Replace are re-implemented from their documentation; the lazily built line table is modelled as computed eagerly.",
+        note="TIED BY TRANSLATION (Props/C11P.lean): NewFileSet / AddFile / FileSet.Position (parsley.File dispatched to the translated text.File methods) and Position.String are translated from /repo on every run and proved equal to the model (c11_translated_functions); the round trip is restated about the translated code (c11p_roundtrip, c11p_unknown). ErrorWithPosition is not translated (opaque error / fmt.Errorf); its ingredients are. "
+             "sort.Search and bytes.Replace are re-implemented from their documentation; the lazily built line table is modelled as computed eagerly.",
         technique="Lean 4 theorems (induction over AddFile, binary-search lemma, line table) + differential correspondence + regenerated facts"),
     "C12": dict(
         text="Machine-checked proof (Lean 4) that parsing commutes with moving the file: every reader primitive (c12_prims) and every "
